@@ -180,6 +180,12 @@ func (rc *SRespCodec) readReply(buf *codec.Buffer) (codec.Command, error) {
 }
 
 func (rc *SRespCodec) MGet(f *Frag, sfd int) error {
+	// anything but an array (an error such as LOADING, CLUSTERDOWN, TRYAGAIN) fails the whole request
+	if f.Type != codec.RspMultibulk {
+		f.Done = true
+		f.Error = codec.ErrUnKnownMget
+		return nil
+	}
 	f.Rsp = rc.parseMGet(f)
 	f.Done = true
 
